@@ -13,8 +13,16 @@ RelChecks(e) ==
                              LET a == F(e.m1, e.perm[i], e.perm[j])  b == F(e.m2, i, j) IN
                              FClose(b, FMul(FInt(e.k), a), FParse("1e-9"), FParse("1e-12")) \/ (FIsNaN(a) /\ FIsNaN(b))]
     [] OTHER -> [knownRelation |-> FALSE]
+\* a caller-supplied model whose k-th evaluation fails: the call returns, with that error, whenever the failing
+\* evaluation is one the computation needs (every pair is needed: k <= number of pairs / of row requests)
+FaultChecks(e) ==
+  LET needed == (e.faildist >= 1 /\ e.faildist <= e.npairs) \/ (e.failseq >= 1 /\ e.failseq <= e.nseqcalls) IN
+  [returns |-> e.kind # "hang", noPanic |-> e.kind # "panic",
+   errorReturned |-> (needed /\ e.kind \notin {"hang", "panic"}) => (e.kind = "err" /\ e.injected),
+   noSpuriousError |-> (~needed /\ e.faildist = 0 /\ e.failseq = 0) => e.kind # "err"]
 Failing(e) ==
-  IF e.t = "rel" THEN LET ch == RelChecks(e) IN {k \in DOMAIN ch : ~ch[k]}
+  IF e.t = "fault" THEN LET ch == FaultChecks(e) IN {k \in DOMAIN ch : ~ch[k]}
+  ELSE IF e.t = "rel" THEN LET ch == RelChecks(e) IN {k \in DOMAIN ch : ~ch[k]}
   ELSE IF e.kind = "panic" THEN {"noPanic"}
   ELSE IF e.kind = "hang" THEN {"returns"}
   ELSE IF e.kind = "err" THEN (IF EncodableRows(e.rows) /\ ~RangeErr(e.r, Len(e.rows)) THEN {"noError"} ELSE {})
